@@ -49,6 +49,13 @@ pub struct Case {
     pub salt: u16,
     /// second-level stop points are swept for first-level k with k % 3 == phase (thorough)
     pub phase: u8,
+    /// the zone as first loaded also holds address records of a name-server host outside the zone
+    /// (out-of-zone glue, which the zone-file loader accepts and the initial dump journals)
+    #[serde(default)]
+    pub glue: bool,
+    /// that many additional host records in the initial zone (a dump of more than 1000 rows)
+    #[serde(default)]
+    pub bulk: u16,
 }
 
 /// C12 findings that wreck the zone or the process are kept out of C14 histories: "delete all
@@ -77,10 +84,12 @@ fn c12_known(sig: &str) -> bool {
 fn case_strategy(_t: Tier) -> impl Strategy<Value = Case> {
     // serial 2^32-1 panicked the live run (overflow on increment) while that C12 defect existed
     let allow_max_serial = !c12_known("panic:proto/src/rr/rdata/soa.rs:attempt-to-add-with-overflow");
-    (updates::history(6, allow_max_serial), any::<u16>(), 0u8..3).prop_map(|(hist, salt, phase)| Case {
+    (updates::history(6, allow_max_serial), any::<u16>(), 0u8..3, prop::bool::weighted(0.25)).prop_map(|(hist, salt, phase, glue)| Case {
         hist: sanitize(hist),
         salt,
         phase,
+        glue,
+        bulk: 0,
     })
 }
 
@@ -533,7 +542,18 @@ fn body(c: &Case, rec: &mut Rec, what: What) -> CaseResult {
     let deeper = what == What::UpdatesTwice;
     let dir = tmp_dir().map_err(|e| Fail::new("harness", format!("tempdir: {e}")))?;
     let jpath = dir.path().join("journal.sqlite");
-    let z0 = c.hist.init.build();
+    let mut z0 = c.hist.init.build();
+    if c.glue {
+        rec.class("initial-zone:out-of-zone-glue");
+        z0.insert(&labels_of("ns.other.test."), T_A, 300, &[198, 51, 100, 1]);
+        z0.insert(&labels_of("ns.other.test."), T_A, 300, &[198, 51, 100, 2]);
+    }
+    if c.bulk > 0 {
+        rec.class("initial-zone:more-than-1000-records");
+        for i in 0..c.bulk {
+            z0.insert(&labels_of(&format!("h{i}.bulk.zone.test.")), T_A, 300, &[10, 9, (i >> 8) as u8, i as u8]);
+        }
+    }
     let mut h = build_handler(&z0, AxfrPolicy::Deny).map_err(|e| Fail::new("harness-init", e))?;
     h.set_tsig_signers(vec![hickory_signer(&test_key(), 300)]);
     let journal = Journal::from_file(&jpath).map_err(|e| Fail::new("harness-init", e.to_string()))?;
@@ -623,8 +643,9 @@ pub fn check() -> Option<Check> {
         "initial_dump_stop_points",
         1_000,
         20_000,
-        |t| case_strategy(t).prop_map(|mut c| {
+        |t| (case_strategy(t), prop_oneof![30 => Just(0u16), 1 => 1001u16..1100]).prop_map(|(mut c, bulk)| {
             c.hist.msgs.clear();
+            c.bulk = bulk;
             c
         }),
         |c: &Case, rec: &mut Rec| body(c, rec, What::InitialDump),
@@ -634,7 +655,7 @@ pub fn check() -> Option<Check> {
     Some(Check {
         id: "C14",
         level: "fault_enumeration",
-        rule: "C12 histories (1..6 signed UPDATE messages through ZoneHandler::update; apex delete-all redirected, serial 2^32-1 avoided) on a SqliteZoneHandler with an on-disk journal incl. the initial persist_to_journal dump; per history EVERY durable journal state is a stop point: the row count k after each SQLite commit as recorded by update/commit hooks on the journal's connection, which with this tree's autocommitted INSERTs is every k in 0..=rows (copy the file, DELETE rowid > k, restart through SqliteZoneHandler::try_from_config with that journal file in place - the path the server binary takes - and continue the remaining history on the handler it returns); journal_stop_twice additionally sweeps every stop point of the continuation for a third of the first-level points. Counters stop_points / recoveries / continuations give the number of (history, k) pairs. Non-trivial = distinct history containing at least one message that wrote >= 2 journal rows (so that some k lies strictly inside a message or between its update rows and its SOA row)",
+        rule: "C12 histories (1..6 signed UPDATE messages through ZoneHandler::update; apex delete-all redirected, serial 2^32-1 avoided) on a SqliteZoneHandler with an on-disk journal incl. the initial persist_to_journal dump (a quarter of the initial zones also hold out-of-zone glue; 1 dump case in 31 has more than 1000 records); per history EVERY durable journal state is a stop point: the row count k after each SQLite commit as recorded by update/commit hooks on the journal's connection, which with this tree's autocommitted INSERTs is every k in 0..=rows (copy the file, DELETE rowid > k, restart through SqliteZoneHandler::try_from_config with that journal file in place - the path the server binary takes - and continue the remaining history on the handler it returns); journal_stop_twice additionally sweeps every stop point of the continuation for a third of the first-level points. Counters stop_points / recoveries / continuations give the number of (history, k) pairs. Non-trivial = distinct history containing at least one message that wrote >= 2 journal rows (so that some k lies strictly inside a message or between its update rows and its SOA row)",
         assumptions: vec![
             "a stop tears between SQLite commits (observed, not assumed); atomicity and durability of one SQLite commit are SQLite's and are trusted",
             "boundary states are those of the running server (C12 decides separately that they are the RFC 2136 states)",
